@@ -354,7 +354,69 @@ def run_valid(ctx, n):
     ctx.run_hypothesis(valid_cases(), check, n)
 
 
+# ---------------------------------------------------------------------------
+# valid data with very large blocks / label counts at the 16-bit boundary
+# ---------------------------------------------------------------------------
+@st.composite
+def valid_large_cases(draw):
+    size = draw(st.sampled_from([[64, 32, 32], [32, 64, 32], [16, 64, 64],
+                                 [41, 41, 39]]))
+    n = size[0] * size[1] * size[2]
+    return {"size": size, "dtype": draw(st.sampled_from(["uint32",
+                                                         "uint64"])),
+            "nlabels": draw(st.sampled_from(sorted({65535, 65536, n, 257,
+                                                    256}))),
+            "writer": draw(st.sampled_from(["package", "spec"])),
+            "seed": draw(st.integers(0, 2 ** 20))}
+
+
+def check_valid_large(ctx, case):
+    from neuroglancer_scripts import chunk_encoding as ce
+    X, Y, Z = case["size"]
+    n = X * Y * Z
+    k = min(case["nlabels"], n)
+    rng = np.random.default_rng(case["seed"])
+    labels = (rng.integers(0, 2 ** 31) + np.arange(k, dtype=np.uint64))
+    flat = np.concatenate([labels, labels[rng.integers(0, k, size=n - k)]])
+    rng.shuffle(flat)
+    dt = np.dtype(case["dtype"]).newbyteorder("<")
+    chunk = flat.astype(dt).reshape(1, Z, Y, X)
+    block = list(case["size"])
+    if case["writer"] == "package":
+        data = bytes(ce.CompressedSegmentationEncoder(
+            case["dtype"], 1, block).encode(chunk))
+    else:
+        data = cseg_spec.encode(chunk, block)
+    try:
+        cseg_spec.validate(data, chunk.shape, block, dt)
+    except cseg_spec.SpecError as exc:
+        if case["writer"] == "spec":
+            raise
+        ctx.fail("package encoder output is not well formed: %s" % exc)
+    c2 = {"decoder": "cseg", "dtype": case["dtype"], "channels": 1,
+          "size": case["size"], "block": block, "data": data,
+          "origin": "valid_large"}
+    outcome, deep, out = decode_outcome(ctx, c2)
+    if outcome != "array":
+        ctx.fail("valid compressed_segmentation data rejected: one block of "
+                 "%s voxels with %d distinct labels written by the %s "
+                 "encoder" % (case["size"], k, case["writer"]))
+    if not np.array_equal(out, chunk):
+        ctx.fail("valid data (block %s, %d labels) decoded to different "
+                 "values" % (case["size"], k))
+
+
+def run_valid_large(ctx, n):
+    def check(ctx, case):
+        check_valid_large(ctx, case)
+        ctx.record(case, True, ["labels%d" % case["nlabels"],
+                                "writer." + case["writer"]])
+    ctx.run_hypothesis(valid_large_cases(), check, n)
+
+
 def replay(ctx, case):
+    if "nlabels" in case:
+        return check_valid_large(ctx, case)
     if "data" in case:
         check_case(ctx, case)
     else:
@@ -422,6 +484,8 @@ SUBS = [
     Sub("cseg", run_kind("cseg"), replay, quick=6000, thorough=300000),
     Sub("jpeg", run_kind("jpeg"), replay, quick=4000, thorough=150000),
     Sub("valid", run_valid, replay, quick=1500, thorough=40000),
+    Sub("valid_large", run_valid_large, replay, quick=24, thorough=400,
+        shards=6),
     Sub("atheris", run_atheris, replay, quick=30000, thorough=120,
         serial=True),
 ]
